@@ -106,7 +106,7 @@ func checkC08(c *Ctx) {
 	c.MinCount("R8.1", 5)
 	c.MinCount("R8.4", 1)
 	c.MinCount("R8.5", 3)
-	c.DecidedClause("the key-emulation branch has a negative (<= -0.5), a centre (-0.49..0.49) and a positive (>= 0.5) region on the same shaped value; negative: Note On of the negative identifier/note/offset unless already tracked, then release of the positive one; centre: both released; positive: mirror image; the negative direction sounds only when a negative note is configured; identifiers of the two directions differ")
+	c.DecidedClause("the key-emulation branch has a negative (<= -0.5), a centre (-0.49..0.49) and a positive (>= 0.5) region on the same shaped value; negative: Note On of the negative identifier/note/offset unless already tracked, then release of the positive one; centre: both released; positive: mirror image; in the band between 49 % and half travel of a side exactly the opposite direction is released; the negative direction sounds only when a negative note is configured; identifiers of the two directions differ")
 	c.DecidedClause("AnalogNoteOn records what it emits and AnalogNoteOff releases exactly the recorded pair; transposition is the same affine int formula with range guard as for keys; an axis that stops emulating keys releases what it started; the parser fills Note/NoteNeg/Bidirectional from note/note_negative")
 	c.UndecidedClause("floating-point comparison exactly at the thresholds for particular raw values; hat vs stick sampling; the numeric shaping before the thresholds (C06)")
 }
@@ -184,6 +184,7 @@ func ruleKeyEmulationTemplate(c *Ctx, dv *dev) {
 		c.Check(bad == "", "R8.1", "device.handleABSEvent/key/identifier-names-the-axis", pos, "identifiers "+pi.canon+" / "+ni.canon+" determine (sub-handler, code, direction)", bad)
 	}
 	sawBidirGuard := false
+	const orderBad = "the Note On of the new direction is sent before the Note Off of the direction that was left: on a direct jump between directions (hat right -> left in one event) both directions sound together between the two messages"
 	for _, p := range paths {
 		if sel, _ := mappingTypeOf(p); sel != keySim || p.End != "return" {
 			continue
@@ -288,6 +289,9 @@ func ruleKeyEmulationTemplate(c *Ctx, dv *dev) {
 				if o.id != thisID || !analogField(o.note, noteField) || !analogField(o.offset, offField) {
 					return fmt.Sprintf("Note On uses (%s, %s, %s); this direction must use its own identifier, %s and %s", o.id, o.note, o.offset, noteField, offField)
 				}
+				if o.idx < offs[0].idx {
+					return "ORDER"
+				}
 			}
 			return ""
 		}
@@ -298,9 +302,22 @@ func ruleKeyEmulationTemplate(c *Ctx, dv *dev) {
 				note("device.handleABSEvent/key/negative-needs-configured-note", "the negative direction sounds AnalogNoteOn(NoteNeg) without testing analog.Bidirectional: an axis with only `note` configured plays pitch 0+transposition when pushed the other way")
 				bad = ""
 			}
+			if bad == "ORDER" {
+				note("device.handleABSEvent/key/release-before-press", orderBad)
+				bad = ""
+			} else if len(calls) == 2 {
+				note("device.handleABSEvent/key/release-before-press", "")
+			}
 			note(key, bad)
 		case "positive":
-			note(key, checkSide(posID, negID, "Note", "ChannelOffset", false))
+			bad := checkSide(posID, negID, "Note", "ChannelOffset", false)
+			if bad == "ORDER" {
+				note("device.handleABSEvent/key/release-before-press", orderBad)
+				bad = ""
+			} else if len(calls) == 2 {
+				note("device.handleABSEvent/key/release-before-press", "")
+			}
+			note(key, bad)
 		case "centre":
 			ids := map[string]bool{}
 			bad := ""
@@ -315,16 +332,78 @@ func ruleKeyEmulationTemplate(c *Ctx, dv *dev) {
 			}
 			note(key, bad)
 		default:
-			if len(calls) > 0 {
-				note(key, "effects outside the three regions: "+desc())
-			} else {
-				note(key, "")
+			// between 49 % and half travel of one side (the hysteresis band of that side): the side's own note keeps its
+			// state, the note of the opposite side must go off - a stick flicked from full deflection straight into the other
+			// side's band is not deflected to the side it left at all
+			term := ""
+			for _, a := range fas {
+				if a.k == 0.5 || a.k == -0.5 || a.k == 0.49 || a.k == -0.49 {
+					term = a.term
+				}
 			}
+			inBand := func(v float64) bool {
+				for _, a := range fas {
+					if a.term != term {
+						continue
+					}
+					holds := false
+					switch a.op {
+					case "<":
+						holds = v < a.k
+					case "<=":
+						holds = v <= a.k
+					case ">":
+						holds = v > a.k
+					case ">=":
+						holds = v >= a.k
+					case "==":
+						holds = v == a.k
+					case "!=":
+						holds = v != a.k
+					}
+					if !holds {
+						return false
+					}
+				}
+				return true
+			}
+			posBand, negBand := term != "" && inBand(0.495), term != "" && inBand(-0.495)
+			var offs []string
+			hasOn := false
+			for _, k := range calls {
+				if k.on {
+					hasOn = true
+				} else {
+					offs = append(offs, k.id)
+				}
+			}
+			bad := ""
+			switch {
+			case hasOn:
+				bad = "a Note On between 49 % and half travel: " + desc()
+			case posBand && negBand:
+				bad = "positions between 49 % and half travel of the two sides are not told apart (got " + desc() + "): after a direct jump from full deflection into the other side's band (e.g. -100 % -> +49.5 %) the note of the side just left keeps sounding although the stick is not deflected to that side at all"
+			case posBand:
+				key = "device.handleABSEvent/key/positive-band"
+				if len(offs) != 1 || offs[0] != negID {
+					bad = "between 49 % and half travel of the positive side exactly the negative direction must be released, got " + desc()
+				}
+			case negBand:
+				key = "device.handleABSEvent/key/negative-band"
+				if len(offs) != 1 || offs[0] != posID {
+					bad = "between 49 % and half travel of the negative side exactly the positive direction must be released, got " + desc()
+				}
+			default:
+				if len(calls) > 0 {
+					bad = "effects outside the regions: " + desc()
+				}
+			}
+			note(key, bad)
 		}
 	}
-	for _, need := range []string{"negative", "centre", "positive"} {
+	for _, need := range []string{"negative", "centre", "positive", "positive-band", "negative-band"} {
 		if agg["device.handleABSEvent/key/"+need] == nil {
-			c.Bad("R8.1", "device.handleABSEvent/key/"+need, pos, "no path for this region: thresholds are not <= -0.5 / (-0.49, 0.49) / >= 0.5 on one value")
+			c.Bad("R8.1", "device.handleABSEvent/key/"+need, pos, "no path for this region: thresholds are not <= -0.5 / (-0.49, 0.49) / >= 0.5 on one value, with the bands between 49 % and half travel told apart")
 		}
 	}
 	for _, k := range sortedKeys(agg) {
